@@ -40,6 +40,9 @@ type descriptor struct {
 	Vars    map[string]any `json:"vars,omitempty"` // initial variables of every process (conditions of prog processes read them)
 	Actions []action       `json:"actions"`
 	Perturb uint64         `json:"perturb"`
+	// CallerTracer: the caller passes its own tracer (bpmn.WithTracer) to
+	// NewProcessSet and observes the set through it
+	CallerTracer bool `json:"callerTracer,omitempty"`
 }
 
 type builtProc struct {
@@ -191,6 +194,9 @@ func runCase(d descriptor) *result {
 	psOpts := []bpmn.Option{bpmn.WithContext(ctx)}
 	if d.Vars != nil {
 		psOpts = append(psOpts, bpmn.WithVariables(d.Vars))
+	}
+	if d.CallerTracer {
+		psOpts = append(psOpts, bpmn.WithTracer(tracing.NewTracer(ctx)))
 	}
 	ps, err := bpmn.NewEngine().NewProcessSet(defs, psOpts...)
 	if err != nil {
@@ -485,6 +491,7 @@ func runCase(d descriptor) *result {
 func draw(rt *rapid.T) descriptor {
 	var d descriptor
 	d.Perturb = uint64(rapid.IntRange(0, 300).Draw(rt, "perturb"))
+	d.CallerTracer = rapid.IntRange(0, 2).Draw(rt, "callerTracer") == 0
 	nExec := rapid.IntRange(1, 3).Draw(rt, "exec")
 	nWait := rapid.IntRange(0, 2).Draw(rt, "waiting")
 	for i := 0; i < nExec; i++ {
